@@ -113,4 +113,49 @@ def cmp_tests(fn):
             if neg:
                 te, fe = fe, te
             out.append({"site": site, "op": c[1], "a": c[2], "b": c[3], "true_edge": te, "false_edge": fe, "line": t.get("l")})
+        elif c[0] == "v" and not c[2]:
+            # a flag: `let due = p && q && (x == 0); if due {..}` -- the last conjunct has no switch of its own, its value is
+            # stored in the flag on the one path on which everything before it held.  The flag's true edge then implies the
+            # comparison (and nothing is known on the false edge); dually for `p || (x == 0)`.
+            from .model import _flag_defs
+            local, fneg, ds = _flag_defs(fn, c[1])
+            consts, comp = set(), []
+            for dsite, kind, st in ds:
+                if kind == "assign" and st["rv"]["k"] == "use" and st["rv"]["op"].get("k") == "const" and st["rv"]["op"].get("val") in ("true", "false"):
+                    consts.add(st["rv"]["op"]["val"])
+                else:
+                    comp.append((dsite, kind, st))
+            if len(comp) != 1 or len(consts) != 1 or comp[0][1] != "assign":
+                continue
+            rv = comp[0][2]["rv"]
+            if rv["k"] == "use":
+                cc = sym(fn, rv["op"])
+            elif rv["k"] == "un" and rv["op"] == "Not":
+                cc = ("un", "Not", sym(fn, rv["a"]))
+            elif rv["k"] == "bin":
+                cc = ("bin", rv["op"], sym(fn, rv["a"]), sym(fn, rv["b"]))
+            else:
+                continue
+            while cc[0] == "un" and cc[1] == "Not":
+                cc = cc[2]
+            if not (cc[0] == "bin" and cc[1] in ("Eq", "Ne", "Lt", "Le", "Gt", "Ge")):
+                continue
+            # FT/FF: the switch edges for flag==true / flag==false
+            ft, ff = bool_edges(fn, site)
+            if fneg != neg:
+                ft, ff = ff, ft
+            # value stored = comparison XOR vneg, where vneg counts only the negations between comparison and the stored value
+            vneg = False
+            x = sym(fn, rv["op"]) if rv["k"] == "use" else (("un", "Not", sym(fn, rv["a"])) if rv["k"] == "un" else cc)
+            while x[0] == "un" and x[1] == "Not":
+                vneg = not vneg
+                x = x[2]
+            ent = {"true_edge": None, "false_edge": None}
+            if consts == {"false"}:
+                # flag true => stored value true => comparison == (not vneg)
+                ent["false_edge" if vneg else "true_edge"] = ft
+            else:
+                # consts == {"true"}: flag false => stored value false => comparison == vneg
+                ent["true_edge" if vneg else "false_edge"] = ff
+            out.append({"site": site, "op": cc[1], "a": cc[2], "b": cc[3], "true_edge": ent["true_edge"], "false_edge": ent["false_edge"], "line": t.get("l"), "via_flag": True})
     return out
